@@ -44,7 +44,13 @@ static void crash_handler(int sig, siginfo_t *si, void *uc) {
   std::string fn = g_sym.in_text(rip) ? g_sym.name(rip) : "jit_or_harness";
   if (g_slot) {
     SimCode *owner = sig == SIGSEGV ? SimCode::owner_of(si->si_addr) : nullptr;
-    if (owner && wr)
+    // The simulated allocator fills freed blocks with 0xDD: library code (not generated code) that faults while a register holds
+    // such a pattern was following a pointer read from freed memory.
+    bool poison = false;
+    if (g_sym.in_text(rip)) for (int r = 0; r < 16 && !poison; r++) { uint64_t v = (uint64_t) u->uc_mcontext.gregs[r]; if (r != REG_RIP && ((v >> 16) == 0xddddddddddddULL || ((v + 0x10000) >> 20) == 0xdddddddddddULL)) poison = true; }
+    if (poison && sig == SIGSEGV && !owner)
+      snprintf((char *) g_slot->note, NOTE_LEN, "CLASS=alloc_use_after_free SIG=crash_in_%s %s in %s while a register holds the poison of a freed block (pointer read from freed memory) during %s", fn.c_str(), signame(sig), fn.c_str(), g_phase);
+    else if (owner && wr)
       snprintf((char *) g_slot->note, NOTE_LEN, "CLASS=code_write_outside_window SIG=%s store to code memory %p outside a mem_protect(WRITE_EXEC)..mem_protect(READ_EXEC) window, in %s during %s", fn.c_str(), si->si_addr, fn.c_str(), g_phase);
     else
       snprintf((char *) g_slot->note, NOTE_LEN, "CLASS=crash SIG=%s_in_%s %s at %p (%s) in %s during %s", signame(sig), fn.c_str(), signame(sig), si->si_addr, wr ? "write" : "read", fn.c_str(), g_phase);
@@ -816,7 +822,9 @@ struct LcSim : Harness {
     // modules created from the MIR text of the same program (scan) behaves, the fault lies in the C translation (C07
     // territory: e.g. a 32-bit result whose undefined upper half is used, which makes the outcome depend on stale
     // register / stack contents and therefore *look* history dependent), not in the history.
-    if (e.cls == "wrong_result" || e.cls == "wrong_ext_log" || e.cls == "crash") {
+    // (Only for what the compiled code does when it is linked, generated or run: a crash inside c2mir itself is the library's.)
+    bool in_c2mir = e.detail.find("during c2mir_") != std::string::npos || e.detail.find("in c2mir_") != std::string::npos || e.detail.find("during MIR_finish") != std::string::npos;
+    if ((e.cls == "wrong_result" || e.cls == "wrong_ext_log" || e.cls == "crash") && !in_c2mir) {
       bool has_c2m = false; Json p = plan;
       for (auto &op : p["ops"].a) if (op.k == Json::Arr && op.size() > 1 && op[0].s == "c2m") { op[0] = Json("scan"); has_c2m = true; }
       if (has_c2m) {
